@@ -420,6 +420,8 @@ def _starts_with_minus(term: Any, sql: str) -> bool:
         return True
     if isinstance(term, ValueWrapper):
         value = term.value
+        while isinstance(value, Enum):
+            value = value.value
         if isinstance(value, Term):
             return _starts_with_minus(value, "")
         # the sign as rendered: str(-0.0) starts with a minus although -0.0 < 0 is false
@@ -510,9 +512,12 @@ class ValueWrapper(Term):
             sql = self.get_value_sql(quote_char=quote_char, secondary_quote_char=secondary_quote_char, **kwargs)
             return format_alias_sql(sql, self.alias, quote_char=quote_char, **kwargs)
 
-        # Don't stringify numbers when using a parameter
-        if isinstance(self.value, numbers.Number) or self.value is None:
-            value_sql = self.value
+        # Don't stringify numbers when using a parameter; an Enum member stands for its value, as it does inline
+        value = self.value
+        while isinstance(value, Enum):
+            value = value.value
+        if isinstance(value, numbers.Number) or value is None:
+            value_sql = value
         else:
             value_sql = self.get_value_sql(quote_char=quote_char, **kwargs)
         param_sql, param_key = self._get_param_data(parameter, **kwargs)
